@@ -255,6 +255,20 @@ def gen(rng, n_manual, n_auto):
         if c["kind"] == "auto" and rng.random() < 0.25:
             from . import c06
             c06.device_failures(rng, c)
+        if j % 10 == 4:
+            # targeted: a support-mode microgrid and a fault on a feeder line without sensor (the sectioning takes the manual time, during
+            # which the microgrid must stay separated from the failed line)
+            while not c["spec"].get("mg"):
+                c = ctl.gen_scenario(rng, max_lines=5, ctrl="main"); c["kind"] = "auto"
+            c["spec"]["mg"]["mode"] = rng.choice(["full", "limited"])
+            hf = c["spec"]["mg"]["host"][0]          # a line of the feeder that hosts the microgrid
+            nlf = len(c["spec"]["feeders"][hf]["parent"])
+            ln = f"F{hf}L{rng.randrange(nlf)}"
+            c["spec"]["ctrl"]["nodev"] = [f"S{ln}"]
+            c["spec"]["ctrl"].pop("ict", None)
+            if F(c["spec"]["ctrl"]["T"]) == 0:
+                c["spec"]["ctrl"]["T"] = "1"
+            c["faults"] = {str(rng.randint(1, 3)): [[ln, str(rng.choice([F(3), F(4)]))]]}
         if c["kind"] == "auto" and rng.random() < 0.3:
             # the main controller goes down for a while (the sub-controllers fall back on the manual loops) and comes back
             for _ in range(rng.choice([1, 2])):
